@@ -21,6 +21,10 @@ Definition last_line {A} (m : gmap N A) : N := foldr (fun p acc => N.max p.1 acc
    covdir: vec![-1; last] then `lines[line_num - 1] = count` for every entry: the same array, line 0 having no slot) *)
 Definition line_array {A} (g : option N -> A) (m : gmap N N) (n : N) : list A :=
   map (fun i => g (m !! N.of_nat (S i))) (seq 0 (N.to_nat n)).
+(* the same array with a binary line counter (what the check evaluates for arrays of 2^16 slots and more) *)
+Fixpoint line_array_from {A} (g : option N -> A) (m : gmap N N) (i : N) (k : nat) : list A :=
+  match k with O => [] | S k => g (m !! i) :: line_array_from g m (i + 1) k end.
+Definition line_array_n {A} (g : option N -> A) (m : gmap N N) (n : N) : list A := line_array_from g m 1 (N.to_nat n).
 (* reading such an array back: slot i speaks about line i+1 *)
 Fixpoint decode_from {A} (h : A -> option N) (i : N) (l : list A) : gmap N N :=
   match l with
